@@ -3,6 +3,7 @@ from collections.abc import Sequence
 
 from hugr import Wire, ops
 from hugr import tys as ht
+from hugr.build.dfg import DfBase
 
 from guppylang_internals.definition.custom import (
     CustomCallCompiler,
@@ -20,7 +21,7 @@ from guppylang_internals.std._internal.compiler.tket_bool import (
 )
 from guppylang_internals.tys.arg import Argument, TypeArg
 from guppylang_internals.tys.common import ToHugrContext
-from guppylang_internals.tys.ty import type_to_row
+from guppylang_internals.tys.ty import NoneType, TupleType, type_to_row
 
 
 def either_to_hugr(type_args: Sequence[Argument], ctx: ToHugrContext) -> ht.Either:
@@ -56,6 +57,20 @@ class EitherCompiler(CustomInoutCallCompiler, ABC):
     def either_ty(self) -> ht.Either:
         return either_to_hugr(self.type_args, self.ctx)
 
+    def pack_payload(
+        self, builder: DfBase[ops.DfParentOp], tag: int, row: list[Wire]
+    ) -> list[Wire]:
+        """Turns the row of variant `tag` back into a single payload value.
+
+        The variant rows flatten tuple (and `None`) payloads, see `either_to_hugr`, but a
+        Guppy value of such a type is a single tuple wire.
+        """
+        match self.type_args[tag]:
+            case TypeArg(ty=TupleType() | NoneType() as payload_ty):
+                row_tys = [t.to_hugr(self.ctx) for t in type_to_row(payload_ty)]
+                return [builder.add_op(ops.MakeTuple(row_tys), *row)]
+        return row
+
 
 class EitherConstructor(EitherCompiler, CustomCallCompiler):
     """Compiler for the `Option` constructors `nothing` and `some`."""
@@ -69,6 +84,14 @@ class EitherConstructor(EitherCompiler, CustomCallCompiler):
             # In the `right` case, the type args are swapped around since `R` occurs
             # first in the signature :(
             ty.variant_rows = [ty.variant_rows[1], ty.variant_rows[0]]
+        # The variant rows flatten tuple (and `None`) payloads, see `either_to_hugr`, so a
+        # payload of such a type has to be unpacked into its row first. The payload type
+        # is always the first type arg (see the comment on the swap above).
+        match self.type_args:
+            case [TypeArg(ty=TupleType() | NoneType() as payload_ty), _]:
+                [payload] = args
+                row_tys = [t.to_hugr(self.ctx) for t in type_to_row(payload_ty)]
+                args = list(self.builder.add_op(ops.UnpackTuple(row_tys), payload))
         return [self.builder.add_op(ops.Tag(self.tag, ty), *args)]
 
 
@@ -99,15 +122,16 @@ class EitherToOptionCompiler(EitherCompiler, CustomCallCompiler):
     def compile(self, args: list[Wire]) -> list[Wire]:
         [either] = args
         cond = self.builder.add_conditional(either)
-        target_tys = self.left_tys if self.tag == 0 else self.right_tys
+        target_arg = self.type_args[self.tag]
+        assert isinstance(target_arg, TypeArg)
+        option_ty = ht.Option(target_arg.ty.to_hugr(self.ctx))
         for i in [0, 1]:
             with cond.add_case(i) as case:
                 if i == self.tag:
-                    out = case.add_op(
-                        ops.Tag(1, ht.Option(*target_tys)), *case.inputs()
-                    )
+                    payload = self.pack_payload(case, i, list(case.inputs()))
+                    out = case.add_op(ops.Tag(1, option_ty), *payload)
                 else:
-                    out = case.add_op(ops.Tag(0, ht.Option(*target_tys)))
+                    out = case.add_op(ops.Tag(0, option_ty))
                 case.set_outputs(out)
         return list(cond.outputs())
 
@@ -128,4 +152,4 @@ class EitherUnwrapCompiler(EitherCompiler, CustomCallCompiler):
             out = build_unwrap_right(
                 self.builder, either, "Either.unwrap_right: value is `left`"
             )
-        return list(out)
+        return self.pack_payload(self.builder, self.tag, list(out))
